@@ -2163,6 +2163,12 @@ impl HasChildren for XmlElement {
             return Err(error::Error::InvalidHierarchy);
         }
 
+        // Elements nest only as deep as the parser reads them back: what is written out of a
+        // tree that is deeper would not parse.
+        if self.element_depth() + value.element_height() > xml_parser::MAX_ELEMENT_DEPTH {
+            return Err(error::Error::InvalidHierarchy);
+        }
+
         match &*value {
             XmlItem::CData(_)
             | XmlItem::CharReference(_)
@@ -2182,6 +2188,38 @@ impl HasChildren for XmlElement {
                 Ok(value)
             }
             _ => Err(error::Error::InvalidType),
+        }
+    }
+}
+
+impl XmlElement {
+    /// Levels of element nesting from the outermost element down to this one.
+    fn element_depth(&self) -> usize {
+        let mut depth = 1;
+        let mut parent_id = self.parent_id();
+        while let Some(node) = parent_id.and_then(|v| self.context().node(v)) {
+            if node.as_element().is_some() {
+                depth += 1;
+            }
+            parent_id = node.parent_id();
+        }
+        depth
+    }
+}
+
+impl XmlItem {
+    /// Levels of element nesting below and including this item; zero for what is not an element.
+    fn element_height(&self) -> usize {
+        match self.as_element() {
+            Some(element) => {
+                let children = element.borrow().children.borrow().clone();
+                1 + children
+                    .iter()
+                    .map(|v| v.element_height())
+                    .max()
+                    .unwrap_or(0)
+            }
+            None => 0,
         }
     }
 }
